@@ -171,34 +171,36 @@ theorem subkeys_infix (k k' : Str) (h : k' ∈ subkeys k) : k' <:+: k := by
 
 /-! ### Merger cache -/
 
-/-- Cache entries with the `final` flag come from a served final request of the current
-    (sort, revision). -/
+/-- Every cache entry comes from a served request of the current (sort, revision, item count),
+    with the entry's pattern and `final` flag. -/
 def LSInv {R : Type} (scan : SReq → R) (seen : List SReq) (st : LS R) : Prop :=
-  ∀ e ∈ st.cache, e.2.2 = true →
-    ∃ r' ∈ seen, r'.final = true ∧ r'.rev = st.rev ∧ r'.sort = st.sort ∧ r'.pat = e.1 ∧ e.2.1 = scan r'
+  ∀ e ∈ st.cache,
+    ∃ r' ∈ seen, r'.final = e.2.2 ∧ r'.rev = st.rev ∧ r'.sort = st.sort ∧ r'.count = st.prevCount ∧
+      r'.pat = e.1 ∧ e.2.1 = scan r'
 
 /-- What makes two requests interchangeable for the scan. -/
 def ScanExt {R : Type} (scan : SReq → R) : Prop :=
   ∀ a b : SReq, a.pat = b.pat → a.snap = b.snap → a.sort = b.sort → scan a = scan b
 
-/-- Once a request of a revision was final (input ended), later requests of that revision carry
-    the same snapshot. -/
-def Valid (a b : SReq) : Prop := a.rev = b.rev → a.final = true → b.snap = a.snap
+/-- Within one revision the list only grows (trimming for --tail, exclusions, nth changes and
+    reloads all change the revision): two snapshots of one revision with the same number of
+    items hold the same items. -/
+def Valid (a b : SReq) : Prop := a.rev = b.rev → a.count = b.count → b.snap = a.snap
 
 theorem serve_spec {R : Type} (scan : SReq → R) (hext : ScanExt scan) (cacheable : R → Bool)
     (seen : List SReq) (st : LS R) (r : SReq) (hinv : LSInv scan seen st) (hv : ∀ s ∈ seen, Valid s r) :
-    (r.final = true → (serve scan cacheable st r).2 = scan r) ∧
+    (serve scan cacheable st r).2 = scan r ∧
     LSInv scan (r :: seen) (serve scan cacheable st r).1 := by
   unfold serve
   cases hcl : (r.sort != st.sort || r.rev != st.rev) with
   | true =>
     simp only [if_true, Option.getD_none]
-    refine ⟨fun _ => trivial, ?_⟩
-    intro e he hfin
+    refine ⟨trivial, ?_⟩
+    intro e he
     simp only at he
     split at he
     · simp at he; subst he
-      exact ⟨r, by simp, hfin, by simp, by simp, by simp, by simp⟩
+      exact ⟨r, by simp, by simp, by simp, by simp, by simp, by simp, by simp⟩
     · cases he
   | false =>
     have hs : r.sort = st.sort ∧ r.rev = st.rev := by
@@ -207,43 +209,41 @@ theorem serve_spec {R : Type} (scan : SReq → R) (hext : ScanExt scan) (cacheab
     by_cases hc : r.count = st.prevCount
     · simp only [hc, if_true]
       -- the published merger
-      have hres : r.final = true →
+      have hres :
           ((st.cache.find? fun e => e.1 == r.pat && e.2.2 == r.final).map (·.2.1)).getD (scan r) = scan r := by
-        intro hfin
         cases hf : st.cache.find? (fun e => e.1 == r.pat && e.2.2 == r.final) with
         | none => rfl
         | some e =>
           have hm := List.mem_of_find?_eq_some hf
           have hk := List.find?_some hf
           simp at hk
-          obtain ⟨hk1, hk2⟩ := hk
-          obtain ⟨r', hr', hf', hrev, hsort, hpat, hscan⟩ := hinv e hm (by rw [hk2, hfin])
+          obtain ⟨hk1, _⟩ := hk
+          obtain ⟨r', hr', _, hrev, hsort, hcount, hpat, hscan⟩ := hinv e hm
           simp only [Option.map_some, Option.getD_some]
           rw [hscan]
-          have hsnap : r.snap = r'.snap := hv r' hr' (by rw [hrev, hs.2]) hf'
+          have hsnap : r.snap = r'.snap := hv r' hr' (by rw [hrev, hs.2]) (by rw [hcount, hc])
           exact hext r' r (by rw [hpat, hk1]) hsnap.symm (by rw [hsort, hs.1])
       refine ⟨hres, ?_⟩
-      intro e he hfin
+      intro e he
       simp only at he
       split at he
       · rcases List.mem_cons.mp he with he | he
         · subst he
-          simp only at hfin
-          refine ⟨r, by simp, hfin, rfl, rfl, rfl, ?_⟩
+          refine ⟨r, by simp, rfl, rfl, rfl, hc, rfl, ?_⟩
           simp only
-          exact hres hfin
+          exact hres
         · have hm := (List.mem_filter.mp he).1
-          obtain ⟨r', hr', hf', hrev, hsort, hpat, hscan⟩ := hinv e hm hfin
-          exact ⟨r', List.mem_cons_of_mem _ hr', hf', by rw [hrev, hs.2], by rw [hsort, hs.1], hpat, hscan⟩
-      · obtain ⟨r', hr', hf', hrev, hsort, hpat, hscan⟩ := hinv e he hfin
-        exact ⟨r', List.mem_cons_of_mem _ hr', hf', by rw [hrev, hs.2], by rw [hsort, hs.1], hpat, hscan⟩
+          obtain ⟨r', hr', hf', hrev, hsort, hcount, hpat, hscan⟩ := hinv e hm
+          exact ⟨r', List.mem_cons_of_mem _ hr', hf', by rw [hrev, hs.2], by rw [hsort, hs.1], hcount, hpat, hscan⟩
+      · obtain ⟨r', hr', hf', hrev, hsort, hcount, hpat, hscan⟩ := hinv e he
+        exact ⟨r', List.mem_cons_of_mem _ hr', hf', by rw [hrev, hs.2], by rw [hsort, hs.1], hcount, hpat, hscan⟩
     · simp only [hc, if_false, Option.getD_none]
-      refine ⟨fun _ => trivial, ?_⟩
-      intro e he hfin
+      refine ⟨trivial, ?_⟩
+      intro e he
       simp only at he
       split at he
       · simp at he; subst he
-        exact ⟨r, by simp, hfin, by simp, by simp, by simp, by simp⟩
+        exact ⟨r, by simp, by simp, by simp, by simp, by simp, by simp, by simp⟩
       · cases he
 
 /-- The requests of a history paired with what is published for them. -/
@@ -260,7 +260,7 @@ theorem servePairs_snd {R : Type} (scan : SReq → R) (cacheable : R → Bool) (
 theorem servePairs_spec {R : Type} (scan : SReq → R) (hext : ScanExt scan) (cacheable : R → Bool)
     (rs : List SReq) (seen : List SReq) (st : LS R) (hinv : LSInv scan seen st)
     (hseen : ∀ s ∈ seen, ∀ r ∈ rs, Valid s r) (hpw : rs.Pairwise Valid) :
-    ∀ x ∈ servePairs scan cacheable st rs, x.1.final = true → x.2 = scan x.1 := by
+    ∀ x ∈ servePairs scan cacheable st rs, x.2 = scan x.1 := by
   induction rs generalizing seen st with
   | nil => intro x hx; cases hx
   | cons r rs ih =>
